@@ -153,10 +153,11 @@ Theorem five_xx_only_embedder_token : forall w n now r st,
   (is_internal (snd (run_seq (code_grant w n now r) st)) = true -> t_hg r = HgFail) /\
   (is_internal (snd (run_seq (refresh_grant w n now r) st)) = true -> t_hg r = HgFail) /\
   (is_internal (snd (run_seq (cc_grant w n now r) st)) = true -> t_hg r = HgFail) /\
-  (is_internal (snd (run_seq (ciba_grant w n now r) st)) = true -> t_hg r = HgFail \/ t_ba r = BaFail).
+  (is_internal (snd (run_seq (ciba_grant w n now r) st)) = true -> t_hg r = HgFail \/ t_ba r = BaFail) /\
+  (is_internal (snd (run_seq (jwt_bearer_grant w n now r) st)) = true -> t_hg r = HgFail).
 Proof.
   intros. exact (conj (code_grant_5xx w n now r st) (conj (refresh_grant_5xx w n now r st)
-                (conj (cc_grant_5xx w n now r st) (ciba_grant_5xx w n now r st)))).
+                (conj (cc_grant_5xx w n now r st) (conj (ciba_grant_5xx w n now r st) (jwt_bearer_grant_5xx w n now r st))))).
 Qed.
 Print Assumptions five_xx_only_embedder_token.
 Theorem five_xx_never_query : forall w now q u st,
@@ -170,7 +171,7 @@ Example five_xx_token_antecedent :
                  false false false false false 0 false false false false false false false false false
                  false false false false false false false "" false [])
                    [mkClient 1 false [GClientCredentials] [] [] "" CibaNone false false false false false false false 0 false] in
-  snd (run_seq (cc_grant w 0 0%Z (mkTReq (mkCred 1 true) no_bind "" 0 "" 0 PkEmpty 0 HgFail BaApprove [])) empty_store)
+  snd (run_seq (cc_grant w 0 0%Z (mkTReq (mkCred 1 true) no_bind "" 0 "" 0 PkEmpty 0 HgFail BaApprove [] AsNone)) empty_store)
   = OErr EInternalError.
 Proof. vm_compute. reflexivity. Qed.
 
@@ -223,6 +224,11 @@ Theorem refused_frame_client_credentials : forall w n now r st e,
   snd (run_seq (cc_grant w n now r) st) = OErr e -> fst (run_seq (cc_grant w n now r) st) = st.
 Proof. exact cc_grant_frame. Qed.
 Print Assumptions refused_frame_client_credentials.
+(* jwt-bearer (authenticated or anonymous client; a refused assertion included): nothing is touched *)
+Theorem refused_frame_jwt_bearer : forall w n now r st e,
+  snd (run_seq (jwt_bearer_grant w n now r) st) = OErr e -> fst (run_seq (jwt_bearer_grant w n now r) st) = st.
+Proof. exact jwt_bearer_grant_frame. Qed.
+Print Assumptions refused_frame_jwt_bearer.
 Theorem refused_frame_ciba : forall w n now r st e,
   snd (run_seq (ciba_grant w n now r) st) = OErr e ->
   let st' := fst (run_seq (ciba_grant w n now r) st) in
